@@ -232,6 +232,41 @@ theorem C03_hook_call_order :
      occursBefore p 1 2 && occursBefore p 1 3 && occursBefore p 1 4 && occursBefore p 1 5) = true := by
   decide
 
+/-! ### the default blocked hosts -/
+
+/-- `Prepare` builds the rule engine from the list the settings report: the
+configured blocked hosts, or — when none are configured — the default names
+`version.bind`, `id.server`, `hostname.bind`; never from an empty list. -/
+theorem C03_defaults_apply (al bl : List Entry) (hosts : List Bytes) (p : Prepared)
+    (h : prepare al bl hosts = .ok p) :
+    p.engineHosts = p.reportedHosts ∧ p.engineHosts ≠ [] ∧
+    (hosts = [] → p.engineHosts = defaultBlockedHosts) ∧ (hosts ≠ [] → p.engineHosts = hosts) ∧
+    newAccessCtx al bl = .ok p.access := by
+  unfold prepare at h
+  cases hn : newAccessCtx al bl with
+  | error e => rw [hn] at h; cases h
+  | ok a =>
+    rw [hn] at h
+    simp only [Except.ok.injEq] at h
+    subst h
+    refine ⟨rfl, ?_, ?_, ?_, rfl⟩
+    · unfold initDefaultHosts
+      cases hosts <;> simp [defaultBlockedHosts]
+    · rintro rfl; rfl
+    · intro hne
+      cases hosts with
+      | nil => exact absurd rfl hne
+      | cons a r => simp [initDefaultHosts]
+
+/-- In the current source `Prepare` calls `initDefaultSettings` before
+`newAccessCtx`, `initDefaultSettings` assigns `defaultBlockedHosts` to the
+configuration, and that literal is the model's list of default names. -/
+theorem C03_prepare_defaults_before_access :
+    (occursBefore AGH.Gen.C03.prepareEvents 1 2 && AGH.Gen.C03.prepareEvents.contains 2 &&
+     decide (AGH.Gen.C03.hostsDefaulting ≥ 1) &&
+     (AGH.Gen.C03.defaultBlockedHosts == defaultBlockedHosts)) = true := by
+  decide
+
 /-! ### live reconfiguration through `POST /control/access/set` -/
 
 /-- A rejected set (duplicates, an entry on both lists, a malformed entry)
